@@ -381,6 +381,8 @@ class CallMixin:
             r = self.m.hooks["method"](self, recv, at, n, st, old)
             if r is not None:
                 return r
+        if "recv" in self.m.hooks:
+            recv = self.m.hooks["recv"](self, recv, at) or recv
         if "as_map" in self.m.hooks:
             mm = self.m.hooks["as_map"](self, recv)
             if mm is not None:
@@ -482,8 +484,11 @@ class CallMixin:
         if s == STR:
             if at in ("startswith", "endswith") and len(n.args) == 1:
                 x = self.ev(n.args[0], st, old)
+                op_ = "str.prefixof" if at == "startswith" else "str.suffixof"
                 if isinstance(x, T) and x.sort == STR:
-                    return T(BOOL, f"(str.prefixof {x.s} {recv.s})" if at == "startswith" else f"(str.suffixof {x.s} {recv.s})")
+                    return T(BOOL, f"({op_} {x.s} {recv.s})")
+                if isinstance(x, TupV) and x.items and all(isinstance(i, T) and i.sort == STR for i in x.items):
+                    return T(BOOL, "(or " + " ".join(f"({op_} {i.s} {recv.s})" for i in x.items) + ")") if len(x.items) > 1 else T(BOOL, f"({op_} {x.items[0].s} {recv.s})")
             if at in ("strip", "rstrip", "lstrip", "lower", "upper", "title", "replace", "split", "rsplit", "splitlines") and all(not isinstance(a, ast.Starred) for a in n.args) and not n.keywords:
                 args = [self.ev(a, st, old) for a in n.args]
                 if all(isinstance(a, T) and a.sort in (STR, INT) for a in args):
